@@ -423,4 +423,79 @@ theorem readBase_border (r : Reg) (t : Style) :
   · simp only [hb, if_true]
   · simp only [hb, if_false]
 
+/-! ### number-format ids are strictly increasing: one id, one code -/
+
+def IdsSorted (r : Reg) : Prop := (numFmtList r).Pairwise (fun a b => a.id < b.id)
+
+theorem sorted_id_inj {l : List XNumFmt} (h : l.Pairwise (fun a b => a.id < b.id)) {a b : XNumFmt}
+    (ha : a ∈ l) (hb : b ∈ l) (e : a.id = b.id) : a = b := by
+  induction l with
+  | nil => cases ha
+  | cons x t ih =>
+    rw [List.pairwise_cons] at h
+    obtain ⟨hx, ht⟩ := h
+    rcases List.mem_cons.mp ha with ha1 | ha1
+    · rcases List.mem_cons.mp hb with hb1 | hb1
+      · rw [ha1, hb1]
+      · have := hx b hb1; rw [ha1] at e; omega
+    · rcases List.mem_cons.mp hb with hb1 | hb1
+      · have := hx a ha1; rw [hb1] at e; omega
+      · exact ih ht ha1 hb1
+
+theorem newNumFmt_list {r r1 : Reg} {s : Style} {n : Nat} (h : newNumFmt r s = .ok (r1, n)) :
+    numFmtList r1 = numFmtList r ∨ ∃ c, numFmtList r1 = numFmtList r ++ [⟨n, c⟩] := by
+  unfold newNumFmt at h
+  repeat' split at h
+  all_goals first
+    | (simp at h; done)
+    | (injection h with h; injection h with h1 h2; subst h1; exact Or.inl rfl)
+    | (simp only [setCustomNumFmt] at h
+       injection h with h; injection h with h1 h2; subst h1; subst h2
+       exact Or.inr ⟨_, by simp [numFmtList] <;> rfl⟩)
+    | (injection h with h; injection h with h1 h2; subst h1; subst h2
+       rename_i hnf _ _ _
+       exact Or.inr ⟨_, by simp [numFmtList, *] <;> rfl⟩)
+
+theorem newNumFmt_sorted {r r1 : Reg} {s : Style} {n : Nat} (w : WF r) (hs : IdsSorted r)
+    (h : newNumFmt r s = .ok (r1, n)) : IdsSorted r1 := by
+  obtain ⟨e, _, _⟩ := newNumFmt_spec w h
+  obtain ⟨ex, hex, hgt⟩ := e.nums
+  unfold IdsSorted
+  rcases newNumFmt_list h with hl | ⟨c, hl⟩
+  · rw [hl]; exact hs
+  · rw [hl, List.pairwise_append]
+    refine ⟨hs, by simp, ?_⟩
+    intro a ha b hb
+    simp at hb; subst hb
+    have hmem : (⟨n, c⟩ : XNumFmt) ∈ ex := by
+      have : numFmtList r ++ ex = numFmtList r ++ [⟨n, c⟩] := by rw [← hex, hl]
+      have := List.append_cancel_left this
+      rw [this]; simp
+    have := hgt _ hmem
+    have := w.numTop a ha
+    simp at *; omega
+
+theorem newStyle_sorted {r r' : Reg} {s s' : Style} {id : Nat} (w : WF r) (hs : IdsSorted r)
+    (h : newStyle r s = .ok (r', id, s')) : IdsSorted r' := by
+  unfold newStyle at h
+  split at h
+  · simp at h
+  · split at h
+    · simp at h
+    · simp at h; obtain ⟨h1, _, _⟩ := h; subst h1; exact hs
+    · obtain ⟨_, _, _, _, _, _, _, _, _, _, r1, hn, hnum⟩ := (createStyle_created w h).xf
+      have := newNumFmt_sorted w hs hn
+      unfold IdsSorted at this ⊢
+      rw [numFmtList_congr hnum]; exact this
+
+theorem getCustomNumFmtID_mem {r : Reg} {c : Str} {n : Nat} (h : getCustomNumFmtID r c = some n) :
+    ∃ nf ∈ numFmtList r, nf.code = c ∧ nf.id = n := by
+  unfold getCustomNumFmtID at h
+  cases hf : (numFmtList r).find? (·.code == c) with
+  | none => rw [hf] at h; cases h
+  | some nf =>
+    rw [hf] at h; simp at h
+    have hp := List.find?_some hf
+    exact ⟨nf, List.mem_of_find?_eq_some hf, by simpa using hp, h⟩
+
 end XlModel.Styles
